@@ -21,7 +21,8 @@ KIND_LIST = {"function": "functions", "subroutine": "subroutines", "generic": "i
 XCLS = {"ExternalModule": "XModule", "ExternalInterface": "XInterface", "ExternalType": "XType",
         "ExternalVariable": "XVariable", "ExternalFunction": "XFunction", "ExternalSubroutine": "XSubroutine",
         "ExternalBoundProcedure": "XBound"}
-EXN = {"KeyError", "TypeError", "AttributeError", "ValueError", "FileNotFoundError", "UnicodeDecodeError"}
+EXN = {"KeyError", "TypeError", "AttributeError", "ValueError", "FileNotFoundError", "UnicodeDecodeError",
+       "JSONDecodeError", "URLError"}
 
 
 def run_A(root, A, extra_options=None):
@@ -140,13 +141,17 @@ def load(external_value, directory, remote_payload=None):
     instance to be raised by urlopen, or bytes to be returned by it.
     Returns (stub project, outcome) with outcome 'ok' | 'contained' | 'EXC:<Type>'."""
     import ford.external_project as ep
-    p = StubProject({"ext": external_value}, directory)
+    externals = external_value if isinstance(external_value, dict) else {"ext": external_value}
+    p = StubProject(externals, directory)
     orig = ep.urlopen
     if remote_payload is not None:
         def fake(url, *a, **k):
-            if isinstance(remote_payload, Exception):
-                raise remote_payload
-            return FakeResponse(remote_payload)
+            payload = remote_payload
+            if isinstance(payload, dict):       # per base URL (several external projects)
+                payload = next(v for k2, v in payload.items() if str(url).startswith(k2.rstrip("/")))
+            if isinstance(payload, Exception):
+                raise payload
+            return FakeResponse(payload)
         ep.urlopen = fake
     buf = io.StringIO()
     try:
@@ -203,12 +208,13 @@ def coq_xval(o, top=True):
     return f"(XO {cls} {coq_json(o.name)} {coq_json(o.external_url)} [{'; '.join(attrs)}])"
 
 
-def coq_impl_out(p, outcome):
-    if outcome == "ok":
+def coq_impl_out(p, outcome, seq=False):
+    if outcome == "ok" or (seq and outcome == "contained"):
         ls = [p.extModules, p.extProcedures, p.extInterfaces, p.extTypes, p.extVariables]
         return "(ILoaded " + " ".join("[" + "; ".join(coq_xval(o) for o in l) + "]" for l in ls) + ")"
     if outcome == "contained":
-        return "IContained"
+        dirty = p.extModules or p.extProcedures or p.extInterfaces or p.extTypes or p.extVariables
+        return "IContainedDirty" if dirty else "IContained"
     name = outcome[4:]
     return f"(IRaised {name})" if name in EXN else "IRaisedOther"
 
